@@ -132,7 +132,7 @@ def r2_memo_key(ctx, rule):
                     break
             # an update inside a loop over levels is suspicious only if the key uses the loop variable: covered above
     # guards: lookup/update only for length <= max_length, same guard
-    if ctx.floor(rule, q, n, 4, 'optimizer lookup/update calls') and ok:
+    if ctx.floor(rule, q, n, 3, 'optimizer lookup/update calls') and ok:
         ctx.ok(rule, q, 'all %d cache accesses use the key (ip, length, target_level) as received' % n, facts)
     # shared inputs: cp / max_level are per-structure attributes set once
     iq = GS + '__init__'
@@ -238,9 +238,32 @@ def r4_exact_last_transition(ctx, rule):
             ok = False
             ctx.bad(rule, q, 'upper bound update ' + U(s_), 'the upper bound may only be clamped to max_level and stepped down', facts, s_)
     loops = [n for n in walk_local(fn) if isinstance(n, ast.While)]
-    if len(loops) != 1 or U(loops[0].test) not in ('%s >= %s' % (top, bottom), '%s <= %s' % (bottom, top)):
+    floops = [n for n in walk_local(fn) if isinstance(n, ast.For)]
+    if not loops and len(floops) == 1 and isinstance(floops[0].iter, ast.Call) and call_name(floops[0].iter) == 'range' \
+            and len(floops[0].iter.args) == 3 and isinstance(floops[0].target, ast.Name):
+        # for level in range(min(top, max_level), bottom - 1, -1): the same descending, bottom-inclusive domain
+        fl = floops[0]
+        lv = fl.target.id
+        a0 = expand(fn, fl.iter.args[0], stores)
+        start_ok = U(a0) in ('min(%s, self.max_level)' % top, 'min(self.max_level, %s)' % top, top)
+        stop = lin(fl.iter.args[1])
+        step_ok = const(fl.iter.args[2]) == -1 or U(fl.iter.args[2]) == '-1'
+        facts['range'] = U(fl.iter)
+        if not start_ok or stop != Lin({bottom: 1}, -1) or not step_ok:
+            ok = False
+            ctx.bad(rule, q, 'search loop ' + U(fl.iter), 'levels from min(top, max_level) down to bottom inclusive', facts, fl)
+        rets = [r for r in walk_local(fl) if isinstance(r, ast.Return)]
+        rv = [U(expand(fn, r.value, stores)) for r in rets]
+        if len(rets) != 1 or not isinstance(rets[0].value, ast.Tuple) or len(rets[0].value.elts) != 2 \
+                or U(expand(fn, rets[0].value.elts[0], stores)) != 'self.cp[%s][%s]' % (ps[1], lv) or U(rets[0].value.elts[1]) != lv:
+            ok = False
+            ctx.bad(rule, q, 'returns %s' % rv, 'the level found must be reported as found', facts, fl)
+    elif len(loops) != 1:
         ok = False
-        ctx.bad(rule, q, 'search loop ' + (U(loops[0].test) if loops else 'missing'), 'levels from top down to bottom inclusive', facts, fn)
+        ctx.unk(rule, q, 'the descending search loop of _find_cp is not in a recognised form')
+    elif U(loops[0].test) not in ('%s >= %s' % (top, bottom), '%s <= %s' % (bottom, top)):
+        ok = False
+        ctx.bad(rule, q, 'search loop ' + U(loops[0].test), 'levels from top down to bottom inclusive', facts, fn)
     else:
         rets = [r for r in walk_local(loops[0]) if isinstance(r, ast.Return)]
         if len(rets) != 1 or U(rets[0].value) != '(self.cp[%s][%s], %s)' % (ps[1], top, top):
@@ -413,7 +436,7 @@ def r7_prune_discipline(ctx, rule):
             else:
                 unk = True
                 ctx.unk(rule, q, 'exit under unrecognised condition %s%s' % ('' if pol else 'not ', txt))
-    if ctx.floor(rule, q, n, 3, 'give-up exits of _fill_out_parse_tree') and not bad and not unk:
+    if ctx.floor(rule, q, n, 2, 'give-up exits of _fill_out_parse_tree') and not bad and not unk:
         ctx.ok(rule, q, 'all %d give-up exits are "no transition fits" or loop exhaustion' % n)
 
 
